@@ -5,9 +5,11 @@ import (
 	"unsafe"
 
 	"github.com/kstenerud/go-concise-encoding/ce"
+	"github.com/kstenerud/go-concise-encoding/ce/events"
 	"github.com/kstenerud/go-concise-encoding/types"
 
 	"verifsim/gen"
+	"verifsim/rec"
 	"verifsim/simio"
 )
 
@@ -152,10 +154,38 @@ func runC07(e *Env) Outcome {
 	sc := &c07Scenario{Format: f.String(), Cfg: cfgd}
 	var bytes []byte
 	structShaped := false
-	mode := t.Intn("doc-mode", 10)
+	mode := t.Intn("doc-mode", 11)
 	var litName string
 	var litTemplate func() interface{}
 	switch {
+	case mode == 10:
+		// a value that contains itself (a marked list or map that refers to its
+		// own marker), placed under k1 and REFERRED to from k2, k3, k4: read
+		// into the struct templates, it lands on fields of every type, so every
+		// conversion and every error message meets a cyclic value
+		self := []rec.Ev{{K: rec.KMarker, S: []byte("m")}, {K: rec.KList}, {K: rec.KPositiveInt, U: 1}, {K: rec.KReferenceLocal, S: []byte("m")}, {K: rec.KEndContainer}}
+		if t.Bool("self-map") {
+			self = []rec.Ev{{K: rec.KMarker, S: []byte("m")}, {K: rec.KMap}, {K: rec.KArray, AT: events.ArrayTypeString, U: 1, S: []byte("a")}, {K: rec.KReferenceLocal, S: []byte("m")}, {K: rec.KEndContainer}}
+		}
+		evs := []rec.Ev{{K: rec.KBeginDocument}, {K: rec.KVersion}, {K: rec.KMap}}
+		first := 1 + t.Intn("self-at", 4)
+		for k := 1; k <= 4; k++ {
+			evs = append(evs, rec.Ev{K: rec.KArray, AT: events.ArrayTypeString, U: 2, S: []byte(fmt.Sprintf("k%d", k))})
+			switch {
+			case k == first:
+				evs = append(evs, self...)
+			case k > first:
+				evs = append(evs, rec.Ev{K: rec.KReferenceLocal, S: []byte("m")})
+			default:
+				evs = append(evs, rec.Ev{K: rec.KPositiveInt, U: uint64(k)})
+			}
+		}
+		evs = append(evs, rec.Ev{K: rec.KEndContainer}, rec.Ev{K: rec.KEndDocument})
+		if d, err := gen.Encode(evs, f, configurationDefault); err == nil && d != nil {
+			bytes = d.Bytes
+		}
+		structShaped = true
+		e.Count("docs_self_containing_value_into_struct_fields", 1)
 	case mode == 9:
 		// the marshaled document of a drawn value (pointers to maps and slices,
 		// nested structs, arrays, recursive types ...), damaged in storage, read
